@@ -405,7 +405,7 @@ pub fn defs() -> Vec<PropDef> {
         },
         PropDef {
             id: "C19", salt: 19, budget: (400, 8_000, 100), specs: &[spec_c19],
-            required: &[("c19.updates_judged", 1), ("c19.updates_rebonding", 1), ("c19.updates_delivering_to_holders", 1), ("c19.updates_with_rewards_on_2plus_validators", 1), ("c19.updates_with_nothing_pending", 1), ("c19.updates_split_checked_both_pools", 1)],
+            required: &[("c19.updates_judged", 1), ("c19.updates_rebonding", 1), ("c19.updates_delivering_to_holders", 1), ("c19.updates_with_rewards_on_2plus_validators", 1), ("c19.updates_with_nothing_pending", 1), ("c19.updates_split_checked_both_pools", 1), ("c19.updates_inside_validator_removal", 1)],
             rule: "full-world histories with multi-denomination reward accrual; a case is an UpdateGlobalIndex by the designated updater; distinct = (empty bSei pool?, empty stSei pool?, decades of rewards, extra denom?, re-bond?, holders?, in-flight batch?)",
         },
     ]
